@@ -8,14 +8,30 @@
    Filter, Cap, Forward; Ready hands out a contiguous run; promotion appends).
    REFUTED (witness histories, replayed on the real code by harness/c41, corpus/C41):
    three clauses of the DESIGN.md statement are false of the faithful model.
-   NOT PROVED (PARTIAL): the history-level induction
-       forall h, hist_ok h -> pool_inv_b (run_history (pool_init c tip g) h) = true
-   where hist_ok demands (1) senders in c_accts, costs < 2^191, nonces < 2^64 and
-   (2) no Reset that moves an account's state nonce below its pending transactions
-   (without (2) the statement is false: C41_pending_gapless_refuted).  [pool_inv_b] is
-   the executable invariant; it is evaluated on every dump of the real pool by the
-   harness oracle and on the model in C41_nonvacuous below. *)
-From GV Require Import Lib.Tactics Pool.Legacy Pool.LegacyProofs.
+   HISTORY LEVEL.  The structural pool invariant [SInv] (Pool/LegacyInv.v) =
+     pending_queue_disjoint (by nonce, hence by tx), all_is_union (lookup = pending ∪ queue as
+     sets, lookup duplicate-free) with the slot counter exact, per-list well-formedness
+     (nonce-sorted, totalcost = sum of costs, cap bounds, strict flag, every tx under its
+     sender, senders in the account universe), and "no Go panic so far".
+   FULL, one preservation theorem per pool-level operation, for every state satisfying SInv:
+     removeTx, add (incl. underpriced eviction and both replacement paths), addTxsLocked,
+     promoteExecutables, truncatePending, truncateQueue, the promote maintenance cycle,
+     Add(txs, sync) and SetGasTip; and by induction C41_structural_inv_histories_partial:
+     SInv after every history of Add / SetGasTip operations, under the guards stated in the
+     theorem (senders in the universe, cost < 2^191, nonce < 2^64).
+   PARTIAL — what is missing from the full statement
+       forall h, hist_ok h -> pool_inv_b (run_history (pool_init c tip g) h) = true :
+     (1) Reset cycles are not covered by the induction: demoteUnexecutables, setAll of the
+         pending nonces and the chain walk of reset have no preservation lemma yet (reinjection
+         itself is addTxsLocked, which is covered);
+     (2) the chain-dependent clauses are not carried through histories: per-tx affordability of
+         pending txs, pendingNonces consistency, pending_front_gapless and contiguity (the
+         list-level mechanisms below are proved; the full gapless statement is FALSE without
+         the no-nonce-regression guard, see C41_pending_gapless_refuted);
+     (3) fuel of the truncation/Discard loops never running out, priced-heap accounting, limits.
+   [pool_inv_b] is the executable full invariant, evaluated on every dump of the real pool by
+   the harness oracle and on the model in C41_nonvacuous below. *)
+From GV Require Import Lib.Tactics Pool.Legacy Pool.LegacyProofs Pool.LegacyInv Pool.LegacyInv2 Pool.LegacyInv3 Pool.LegacyInv4.
 Local Open Scope N_scope.
 
 (* replacement_requires_bump: whenever list.Add replaces a transaction, the new one has the
@@ -96,6 +112,42 @@ Print Assumptions C41_promote_appends.
 Theorem C41_gapless_checker_sound : forall l s, seq_from s l = true <-> contig s l.
 Proof. exact seq_from_contig. Qed.
 Print Assumptions C41_gapless_checker_sound.
+
+(* ---------- structural invariant: one preservation theorem per operation ---------- *)
+Theorem C41_removeTx_preserves : forall k t oob st, SInv st ->
+  SInv (fst (remove_tx (S (S k)) t oob st)) /\
+  (forall x, In x (p_all (fst (remove_tx (S (S k)) t oob st))) <-> In x (p_all st) /\ x <> t).
+Proof. intros k t oob st H. destruct (remove_tx_SInv k t oob st H) as [H1 [H2 _]]. split; assumption. Qed.
+Print Assumptions C41_removeTx_preserves.
+Theorem C41_add_preserves : forall t st, SInv st -> okt (p_cfg st) t -> SInv (fst (fst (pool_add t st))).
+Proof. intros t st H K. apply (pool_add_RS t st H K). Qed.
+Print Assumptions C41_add_preserves.
+Theorem C41_addTxsLocked_preserves : forall txs errs st dirty, SInv st -> (forall t, In t txs -> okt (p_cfg st) t) ->
+  SInv (fst (fst (add_txs_locked txs errs st dirty))).
+Proof. intros txs errs st dirty H K. apply (add_txs_locked_RS txs errs st dirty H K). Qed.
+Print Assumptions C41_addTxsLocked_preserves.
+Theorem C41_promoteExecutables_preserves : forall accts st, SInv st -> SInv (promote_executables accts st).
+Proof. intros accts st H. apply (promote_executables_RS accts st H). Qed.
+Print Assumptions C41_promoteExecutables_preserves.
+Theorem C41_truncatePending_preserves : forall st, SInv st -> SInv (truncate_pending st).
+Proof. intros st H. apply (truncate_pending_RS st H). Qed.
+Print Assumptions C41_truncatePending_preserves.
+Theorem C41_truncateQueue_preserves : forall st, SInv st -> SInv (truncate_queue st).
+Proof. intros st H. apply (truncate_queue_SInv st H). Qed.
+Print Assumptions C41_truncateQueue_preserves.
+Theorem C41_Add_preserves : forall txs st, SInv st -> (forall t, In t txs -> okt (p_cfg st) t) -> SInv (fst (pool_Add txs st)).
+Proof. intros txs st H K. apply (pool_Add_RS txs st H K). Qed.
+Print Assumptions C41_Add_preserves.
+Theorem C41_SetGasTip_preserves : forall tip st, SInv st -> SInv (pool_SetGasTip tip st).
+Proof. intros tip st H. apply (pool_SetGasTip_RS tip st H). Qed.
+Print Assumptions C41_SetGasTip_preserves.
+
+(* by induction over histories; PARTIAL: op_ok excludes OpReset (see the header), and only the
+   structural clauses are carried *)
+Theorem C41_structural_inv_histories_partial : forall c tip g h,
+  Forall (op_ok c) h -> SInv (run_history (pool_init c tip g) h).
+Proof. intros c tip g h H. apply (history_SInv h (pool_init c tip g) (SInv_init c tip g) H). Qed.
+Print Assumptions C41_structural_inv_histories_partial.
 
 (* ---------- witnesses ---------- *)
 Definition cfg_roomy : cfg := mkCfg 10 16 64 16 64 [0; 1; 2].
